@@ -7,6 +7,9 @@ Require Import Base.Py Base.ZList Model.Splice Model.Fam_mp4 Proofs.Splice_lemma
   Proofs.Fam_mp4_lists Proofs.Fam_mp4_surgery Proofs.Fam_mp4_shift Proofs.Fam_mp4_existing Proofs.Fam_mp4_new.
 Open Scope Z_scope.
 
+Lemma zlen_zeros_mx n : zlen (zeros n) = Z.max 0 n.
+Proof. destruct (Z.le_gt_cases 0 n); [rewrite zlen_zeros by lia; lia|rewrite zeros_neg by lia; cbn; lia]. Qed.
+
 Definition hdr_of (data : list Z) : Z := if zlen data + 8 <=? 4294967295 then 8 else 16.
 
 Lemma zlen_render' n data : zlen n = 4 -> zlen (mp4_render n data) = zlen data + hdr_of data.
@@ -148,7 +151,7 @@ Proof.
   rewrite <- m_is. change (mp4_skip N_meta) with 4.
   apply forest_ok_intro; [reflexivity| |].
   - unfold nm_hdlr. change mp4_hdlr with (mp4_render N_hdlr (zeros 8 ++ [109;100;105;114;97;112;112;108] ++ zeros 9)).
-    apply (render_leaf_ok g (p + hM + 4) N_hdlr); [reflexivity|reflexivity|cbn; unfold MP4_U64; lia|].
+    apply (render_leaf_ok g (p + hM + 4) N_hdlr); [reflexivity|reflexivity|vm_compute; reflexivity|].
     apply (Gin mp4_hdlr 4 Phd).
   - unfold nm_hdlr. cbn [ma_len]. apply forest_ok_intro.
     + unfold nm_ilst. rewrite shift_off. pose proof (forest_ok_cons _ _ _ _ _ _ Hit) as (E & _). lia.
@@ -167,13 +170,331 @@ Proof.
           replace (ma_off x + (p + hM + 4 + zlen mp4_hdlr)) with (p + hM + (4 + 33) + ma_off x) by lia. apply Y2; lia.
         - destruct (Gin ilst_data (4 + 33) Pil) as (_ & _ & _ & Y & _). lia. }
       apply forest_ok_cons in Hx. tauto.
-    + unfold nm_ilst. rewrite shift_len, shift_off.
+    + unfold nm_ilst. rewrite shift_len.
       pose proof (forest_ok_cons _ _ _ _ _ _ Hit) as (E1 & E2 & E3). apply forest_ok_nil in E3.
       apply forest_ok_intro.
       * unfold nm_free. cbn [ma_off]. lia.
       * unfold nm_free, fr. apply render_leaf_ok; [reflexivity|reflexivity|unfold MP4_U64; lia|].
         fold fr. replace (p + hM + 4 + zlen mp4_hdlr + zlen ilst_data) with (p + hM + (4 + 33 + zlen ilst_data)) by lia.
         apply (Gin fr _ Pfr).
-      * cbn. apply Z.eqb_eq. unfold nm_free. cbn [ma_off ma_len]. lia.
+      * unfold hM in *. cbn [mp4_forest_ok]. apply Z.eqb_eq. unfold nm_free. cbn [ma_len]. lia.
 Qed.
 End NewMeta.
+
+(* ------------------------------------------------------------------ the tree of the result of __save_new *)
+Section NewWf.
+Variables (f : list Z) (atoms : list mp4_atom).
+Hypothesis Hwf : mp4_forest_ok f true atoms 0 (zlen f) = true.
+Hypothesis Htab : mp4_tables_ok f atoms = true.
+Variables (path : list mp4_atom) (last : mp4_atom) (rest : list mp4_atom).
+Hypothesis Hpath : mp4_insert_path atoms = Some path.
+Hypothesis Hlast : rev path = last :: rest.
+Let off := ma_off last + ma_hdr last.
+Hypothesis Hfirst : forall T, In T (all_tabs atoms) -> ma_off T <> off.
+Variables (cb : Z -> Z -> Z) (ilst_data : list Z) (it : mp4_atom).
+Hypothesis Hit : mp4_forest_ok ilst_data false [it] 0 (zlen ilst_data) = true.
+Hypothesis Hsmall : zlen ilst_data < 4611686018427387904.
+Let data := mp4_new_insert cb f last ilst_data.
+Let delta := zlen data.
+Variables (f2 f' : list Z).
+Hypothesis Hrun1 : mp4_update_parents (zlen data - 0) (splice f off 0 data) (map ma_off path) = Ok f2.
+Hypothesis Hrun2 : mp4_update_offsets atoms (zlen data - 0) off f2 = Ok f'.
+
+Let res := new_result f atoms Hwf Htab path last rest Hpath Hlast Hfirst data f2 f' Hrun1 Hrun2.
+Let PF := path_facts f atoms Hwf Htab path last rest Hpath Hlast Hfirst.
+Let LF := last_facts f atoms Hwf Htab path last rest Hpath Hlast Hfirst.
+
+Lemma nw_zlen : zlen f' = zlen f + delta.
+Proof. destruct res as (Z & _). unfold delta. lia. Qed.
+Lemma nw_region : agree data 0 f' off (zlen data).
+Proof. destruct res as (_ & _ & A & _). exact A. Qed.
+
+Lemma mv0 a : mv off 0 data a = if off <=? a then a + delta else a.
+Proof. unfold mv, delta. rewrite Z.add_0_r, Z.sub_0_r. reflexivity. Qed.
+
+(* the header of an atom that is not on the insertion path avoids every patch site *)
+Lemma nw_hdr_kept x : In x (mp4_flat atoms) -> ~ In x path -> (ma_off x + ma_hdr x <= off \/ off <= ma_off x) ->
+  agree f (ma_off x) f' (mv off 0 data (ma_off x)) (ma_hdr x).
+Proof.
+  intros Hx Hn Hpos. destruct (flat_member_ok f atoms Hwf x Hx) as (top & Hok). pose proof (atom_ok_len _ _ _ Hok) as Lx.
+  pose proof (skip_nonneg (ma_name x)) as Sx.
+  assert (Hseg : s_lo (seg_of x) = ma_off x /\ ma_off x + ma_hdr x <= s_hi (seg_of x)).
+  { unfold seg_of, s_lo, s_hi. destruct (ma_kids x); cbn; lia. }
+  destruct res as (_ & Fr & _). apply Fr; try lia.
+  - unfold clear_of. lia.
+  - intros An HA. destruct PF as (_ & _ & AO & _). rewrite Forall_forall in AO. destruct (AO An HA) as (HAin & (k & HAk) & _).
+    destruct (segs_disjoint _ _ _ _ _ x An Hwf Hx HAin) as [E|D]; [subst; contradiction|].
+    pose proof (skip_nonneg (ma_name An)).
+    assert (HsA : s_lo (seg_of An) = ma_off An /\ s_hi (seg_of An) = ma_off An + ma_hdr An + mp4_skip (ma_name An))
+      by (unfold seg_of, s_lo, s_hi; rewrite HAk; split; reflexivity).
+    unfold clear_of. lia.
+  - intros T HT. pose proof (member_facts f atoms Hwf off 0 data (new_placed f atoms Hwf Htab path last rest Hpath Hlast Hfirst) T HT)
+      as (HTin & _ & _ & _ & LT & KT).
+    destruct (segs_disjoint _ _ _ _ _ x T Hwf Hx HTin) as [E|D].
+    + subst. unfold clear_of. lia.
+    + assert (HsT : s_lo (seg_of T) = ma_off T /\ s_hi (seg_of T) = ma_off T + ma_len T)
+        by (unfold seg_of, s_lo, s_hi; rewrite KT; split; reflexivity).
+      unfold clear_of. lia.
+Qed.
+
+Lemma nw_before top l p e : mp4_forest_ok f top l p e = true -> e <= off ->
+  (forall y, In y (mp4_flat l) -> In y (mp4_flat atoms) /\ ~ In y path) -> Forall (hdr_agree f f' 0) (mp4_flat l).
+Proof.
+  intros Hf He Hin. apply Forall_forall. intros x Hx. destruct (Hin x Hx) as (Hxa & Hnp).
+  pose proof (forest_within _ _ _ _ _ Hf) as W. rewrite Forall_forall in W. specialize (W x Hx). unfold within in W.
+  destruct (flat_member_ok f atoms Hwf x Hxa) as (top' & Hok). pose proof (atom_ok_len _ _ _ Hok) as Lx.
+  unfold hdr_agree. rewrite Z.add_0_r. pose proof (nw_hdr_kept x Hxa Hnp ltac:(lia)) as X. rewrite mv0 in X.
+  destruct (off <=? ma_off x) eqn:E; [lia|exact X].
+Qed.
+Lemma nw_after top l p e : mp4_forest_ok f top l p e = true -> off <= p ->
+  (forall y, In y (mp4_flat l) -> In y (mp4_flat atoms) /\ ~ In y path) -> Forall (hdr_agree f f' delta) (mp4_flat l).
+Proof.
+  intros Hf He Hin. apply Forall_forall. intros x Hx. destruct (Hin x Hx) as (Hxa & Hnp).
+  pose proof (forest_within _ _ _ _ _ Hf) as W. rewrite Forall_forall in W. specialize (W x Hx). unfold within in W.
+  unfold hdr_agree. pose proof (nw_hdr_kept x Hxa Hnp ltac:(lia)) as X. rewrite mv0 in X.
+  destruct (off <=? ma_off x) eqn:E; [exact X|lia].
+Qed.
+
+(* an atom of the insertion path: its header carries length + delta *)
+Lemma nw_anc_header top An : In An path -> mp4_atom_ok f top An = true -> off <= ma_off An + ma_len An ->
+  (top = true -> ma_off An + ma_len An = zlen f \/ be_decode (mp4_rd f (ma_off An) 4) <> 0) ->
+  mp4_header_ok f' top (ma_name An) (ma_off An) (ma_len An + delta) (ma_hdr An) = true.
+Proof.
+  intros HA Hok Hcontains Htop. destruct PF as (_ & _ & AO & _). rewrite Forall_forall in AO. pose proof (AO An HA) as HA'.
+  destruct res as (_ & _ & _ & UA & _). specialize (UA An HA). rewrite Z.sub_0_r in UA. fold delta in UA.
+  destruct UA as (U1n & U0 & U64 & U32).
+  pose proof (anc_header f atoms Hwf off 0 data An HA') as (F0 & Fh & Fo & F8 & Fn & F64 & F32 & Fz).
+  pose proof (atom_ok_header _ _ _ Hok) as Hh. pose proof (header_ok_facts _ _ _ _ _ _ Hh) as (G1 & G2 & G3 & G4 & G5 & G6 & G7).
+  pose proof nw_zlen as ZR. pose proof (zlen_nonneg data) as DN. assert (Hd : delta = zlen data) by reflexivity.
+  assert (R4 : zlen (mp4_rd f' (ma_off An) 8) = 8) by (apply zlen_rd_in; lia).
+  assert (R8 : mp4_rd f' (ma_off An) 8 = mp4_rd f' (ma_off An) 4 ++ mp4_rd f' (ma_off An + 4) 4).
+  { replace 8 with (4 + 4) at 1 by lia. apply rd_app_split; lia. }
+  unfold mp4_header_ok. rewrite R4. cbn [Z.eqb Pos.eqb].
+  assert (K1 : (0 <=? ma_off An) = true) by (apply Z.leb_le; lia). rewrite K1.
+  assert (K2 : (ma_off An + (ma_len An + delta) <=? zlen f') = true) by (apply Z.leb_le; lia). rewrite K2.
+  rewrite R8. rewrite ztake_app_n by (apply zlen_rd_in; lia). rewrite zdrop_app_n by (apply zlen_rd_in; lia).
+  rewrite U1n, Fn. assert (K3 : list_eqb (ma_name An) (ma_name An) = true) by (apply list_eqb_spec; reflexivity). rewrite K3.
+  cbn [andb].
+  destruct (Z.eq_dec (be_decode (mp4_rd f (ma_off An) 4)) 0) as [Z0|N0].
+  - assert (Htp : top = true /\ ma_len An = zlen f - ma_off An).
+    { unfold mp4_header_ok in Hh. rewrite ztake_rd in Hh by lia. rewrite Z0 in Hh.
+      apply andb_true_iff in Hh. destruct Hh as [_ HE]. destruct top; [split; [reflexivity|]|lia]. lia. }
+    destruct Htp as (-> & Hlen). rewrite (U0 Z0), Z0. rewrite (Fz Z0). cbn [Z.eqb andb orb].
+    assert (K4 : (ma_len An + delta =? zlen f' - ma_off An) = true) by (apply Z.eqb_eq; lia). rewrite K4.
+    rewrite !orb_true_r. reflexivity.
+  - destruct (Z.eq_dec (be_decode (mp4_rd f (ma_off An) 4)) 1) as [Z1|N1].
+    + destruct (F64 Z1) as (Hh16 & _). destruct (U64 Z1) as (V1 & V2). rewrite V1, Z1, Hh16. cbn [Z.eqb Pos.eqb andb orb].
+      rewrite zlen_rd_in by lia. rewrite V2. rewrite Z.eqb_refl. cbn [Z.eqb Pos.eqb andb].
+      assert (K4 : (16 <=? ma_len An + delta) = true) by (apply Z.leb_le; lia). rewrite K4.
+      rewrite Z.eqb_refl. reflexivity.
+    + destruct (F32 N0 N1) as (Hh8 & _). rewrite (U32 N0 N1), Hh8. cbn [Z.eqb Pos.eqb andb]. rewrite Z.eqb_refl.
+      assert (K4 : (8 <=? ma_len An + delta) = true) by (apply Z.leb_le; lia). rewrite K4. reflexivity.
+Qed.
+
+(* the container C (= last) receives NEW in front of its shifted children *)
+Lemma nw_insert_container top C K NEW :
+  In C path -> mp4_atom_ok f top C = true -> ma_kids C = Some K -> ma_off C + ma_hdr C + mp4_skip (ma_name C) = off ->
+  (forall y, In y (mp4_flat K) -> In y (mp4_flat atoms) /\ ~ In y path) ->
+  mp4_forest_ok f' false NEW off (off + delta) = true ->
+  (top = true -> ma_off C + ma_len C = zlen f \/ be_decode (mp4_rd f (ma_off C) 4) <> 0) ->
+  mp4_atom_ok f' top (MAtom (ma_name C) (ma_off C) (ma_len C + delta) (ma_hdr C) (Some (NEW ++ shift_forest delta K))) = true.
+Proof.
+  intros HC Hok HK Hoff HKin HNEW Htop. destruct (atom_ok_kids _ _ _ _ Hok HK) as (Hc & Hk). rewrite Hoff in Hk.
+  pose proof (forest_ok_le _ _ _ _ _ Hk) as Hle. pose proof nw_zlen as ZR. pose proof (atom_ok_len _ _ _ Hok) as LC.
+  rewrite atom_ok_node. rewrite (nw_anc_header top C HC Hok Hle Htop). rewrite Hc. cbn [andb]. rewrite Hoff.
+  apply forest_ok_app_intro with (m := off + delta); [exact HNEW|].
+  pose proof (forest_ok_transfer f f' delta false K off (ma_off C + ma_len C) Hk) as X.
+  replace (ma_off C + ma_len C + delta) with (ma_off C + (ma_len C + delta)) in X by lia.
+  apply X; [apply (nw_after _ _ _ _ Hk); [lia|exact HKin]|lia|discriminate].
+Qed.
+End NewWf.
+
+(* ------------------------------------------------------------------ assembling the two shapes *)
+Lemma not_in_by_off (y : mp4_atom) (l : list mp4_atom) : (forall A, In A l -> ma_off y <> ma_off A) -> ~ In y l.
+Proof. intros H Hin. apply (H y Hin). reflexivity. Qed.
+
+Lemma new_meta_small cb cs ilst_data : zlen ilst_data < 4611686018427387904 ->
+  zlen (mp4_new_meta cb cs ilst_data) + 16 < MP4_U64 /\ 8 <= zlen (mp4_new_meta cb cs ilst_data).
+Proof.
+  intros Hs. unfold mp4_new_meta. cbv zeta. rewrite zlen_render' by reflexivity.
+  set (md := zeros 4 ++ mp4_hdlr ++ ilst_data). rewrite zlen_app. unfold mp4_padding_atom.
+  rewrite zlen_render' by reflexivity. pose proof (zlen_nonneg ilst_data).
+  assert (Hmd : zlen md = 37 + zlen ilst_data).
+  { unfold md. rewrite !zlen_app. replace (zlen (zeros 4)) with 4 by reflexivity. replace (zlen mp4_hdlr) with 33 by reflexivity. lia. }
+  set (pd := Z.min MP4_MAXPAD (cb (- zlen md) cs)). assert (pd <= MP4_MAXPAD) by apply Z.le_min_l.
+  pose proof (zlen_zeros_mx pd). unfold hdr_of. unfold MP4_U64, MP4_MAXPAD in *.
+  destruct (zlen (zeros pd) + 8 <=? 4294967295); destruct (_ <=? 4294967295); lia.
+Qed.
+
+Section NewFinal.
+Variables (f : list Z) (atoms : list mp4_atom).
+Hypothesis Hwf : mp4_forest_ok f true atoms 0 (zlen f) = true.
+Hypothesis Htab : mp4_tables_ok f atoms = true.
+Variables (cb : Z -> Z -> Z) (ilst_data : list Z) (it : mp4_atom).
+Hypothesis Hit : mp4_forest_ok ilst_data false [it] 0 (zlen ilst_data) = true.
+Hypothesis Hsmall : zlen ilst_data < 4611686018427387904.
+
+(* the new meta placed at p in the result *)
+Lemma nm_at f' p cs : agree (mp4_new_meta cb cs ilst_data) 0 f' p (zlen (mp4_new_meta cb cs ilst_data)) ->
+  mp4_forest_ok f' false [nm_meta p cb cs ilst_data it] p (p + zlen (mp4_new_meta cb cs ilst_data)) = true.
+Proof.
+  intros AG. apply forest_ok_intro; [reflexivity|apply (nm_meta_ok f' p cb cs ilst_data it Hit Hsmall AG)|].
+  cbn. apply Z.eqb_refl.
+Qed.
+
+(* shape B: no udta; a new udta(meta) becomes the first child of moov *)
+Theorem new_wellformed_moov moov T1 T2 K rest f2 f' :
+  mp4_insert_path atoms = Some [moov] -> atoms = T1 ++ moov :: T2 -> ma_name moov = N_moov -> ma_kids moov = Some K ->
+  rev [moov] = moov :: rest ->
+  (forall T, In T (all_tabs atoms) -> ma_off T <> ma_off moov + ma_hdr moov) ->
+  let off := ma_off moov + ma_hdr moov in
+  let data := mp4_new_insert cb f moov ilst_data in
+  mp4_update_parents (zlen data - 0) (splice f off 0 data) (map ma_off [moov]) = Ok f2 ->
+  mp4_update_offsets atoms (zlen data - 0) off f2 = Ok f' ->
+  exists atoms', mp4_forest_ok f' true atoms' 0 (zlen f') = true.
+Proof.
+  intros Hp Ea Nm Km Hrev Hfirst off data R1 R2.
+  set (cs := zlen f - off). set (m := mp4_new_meta cb cs ilst_data).
+  assert (Hdata : data = mp4_render N_udta m).
+  { unfold data, mp4_new_insert. fold off cs m. rewrite Nm. reflexivity. }
+  pose proof (new_meta_small cb cs ilst_data Hsmall) as (Hms & Hm8). fold m in Hms, Hm8.
+  pose proof (nw_zlen f atoms Hwf Htab [moov] moov rest Hp Hrev Hfirst cb ilst_data f2 f' R1 R2) as ZR.
+  pose proof (nw_region f atoms Hwf Htab [moov] moov rest Hp Hrev Hfirst cb ilst_data f2 f' R1 R2) as AGD.
+  fold off data in ZR, AGD. set (delta := zlen data) in *.
+  pose proof (zlen_nonneg data) as DN. assert (Hdel : delta = zlen data) by reflexivity.
+  assert (Hdl : zlen data = zlen m + hdr_of m) by (rewrite Hdata; apply zlen_render'; reflexivity).
+  rewrite Ea in Hwf. pose proof (forest_ok_split _ _ _ _ _ _ _ Hwf) as (F1 & Hm & F3).
+  destruct (atom_ok_kids _ _ _ _ Hm Km) as (_ & Hk). pose proof (atom_ok_len _ _ _ Hm) as Lm.
+  assert (Sm : mp4_skip (ma_name moov) = 0) by (rewrite Nm; reflexivity). rewrite Sm, Z.add_0_r in Hk. fold off in Hk.
+  rewrite <- Ea in Hwf.
+  (* the new udta *)
+  set (udta_new := MAtom N_udta off (zlen data) (hdr_of m) (Some [nm_meta (off + hdr_of m) cb cs ilst_data it])).
+  assert (HU : mp4_forest_ok f' false [udta_new] off (off + delta) = true).
+  { apply forest_ok_intro; [reflexivity| |cbn; apply Z.eqb_refl].
+    unfold udta_new. rewrite Hdata. apply render_node_ok; [reflexivity|reflexivity|exact Hms|rewrite <- Hdata; exact AGD|].
+    change (mp4_skip N_udta) with 0. rewrite Z.add_0_r. rewrite <- Hdata.
+    replace (off + zlen data) with (off + hdr_of m + zlen m) by lia. apply nm_at.
+    apply (agree_inner data f' off m (hdr_of m) AGD). rewrite Hdata. apply render_payload. reflexivity. }
+  assert (Hin_atoms : forall l, (forall y, In y l -> In y (mp4_flat atoms)) -> True) by auto.
+  assert (InK : forall y, In y (mp4_flat K) -> In y (mp4_flat atoms) /\ ~ In y [moov]).
+  { intros y Hy. split.
+    - rewrite Ea. eapply in_flat_kids; [|exact Km|exact Hy]. apply in_or_app. right; left; reflexivity.
+    - pose proof (forest_within _ _ _ _ _ Hk) as W. rewrite Forall_forall in W. specialize (W y Hy). unfold within in W.
+      apply not_in_by_off. intros A [<-|[]]. unfold off in W. lia. }
+  assert (Htopc : true = true -> ma_off moov + ma_len moov = zlen f \/ be_decode (mp4_rd f (ma_off moov) 4) <> 0).
+  { intros _. destruct (Z.eq_dec (be_decode (mp4_rd f (ma_off moov) 4)) 0) as [Z0|N0]; [left|right; exact N0].
+    pose proof (atom_ok_header _ _ _ Hm) as Hh. pose proof (header_ok_facts _ _ _ _ _ _ Hh) as (G1 & G2 & G3 & G4 & G5 & G6 & G7).
+    unfold mp4_header_ok in Hh. rewrite ztake_rd in Hh by lia. rewrite Z0 in Hh.
+    apply andb_true_iff in Hh. destruct Hh as [_ HE]. lia. }
+  pose proof (nw_insert_container f atoms Hwf Htab [moov] moov rest Hp Hrev Hfirst cb ilst_data f2 f' R1 R2
+                true moov K [udta_new] (or_introl eq_refl) Hm Km ltac:(rewrite Sm; unfold off; lia) InK HU Htopc) as HM.
+  fold data delta in HM.
+  exists (T1 ++ MAtom (ma_name moov) (ma_off moov) (ma_len moov + delta) (ma_hdr moov) (Some ([udta_new] ++ shift_forest delta K))
+            :: shift_forest delta T2).
+  apply forest_ok_app_intro with (m := ma_off moov).
+  - apply (forest_ok_same f f' true T1 _ _ F1); [|lia|intros _; right; lia].
+    apply (nw_before f atoms Hwf Htab [moov] moov rest Hp Hrev Hfirst cb ilst_data f2 f' R1 R2 _ _ _ _ F1); [unfold off; lia|].
+    intros y Hy. split; [rewrite Ea, flat_app; apply in_or_app; left; exact Hy|].
+    pose proof (forest_within _ _ _ _ _ F1) as W. rewrite Forall_forall in W. specialize (W y Hy). unfold within in W.
+    destruct (flat_member_ok f atoms Hwf y ltac:(rewrite Ea, flat_app; apply in_or_app; left; exact Hy)) as (tp & Hyok).
+    pose proof (atom_ok_len _ _ _ Hyok). apply not_in_by_off. intros A [<-|[]]. lia.
+  - apply forest_ok_intro; [reflexivity|exact HM|]. cbn [ma_off ma_len].
+    pose proof (forest_ok_transfer f f' delta true T2 _ _ F3) as X.
+    replace (ma_off moov + ma_len moov + delta) with (ma_off moov + (ma_len moov + delta)) in X by lia.
+    rewrite ZR. apply X; [|lia|intros _; left; lia].
+    apply (nw_after f atoms Hwf Htab [moov] moov rest Hp Hrev Hfirst cb ilst_data f2 f' R1 R2 _ _ _ _ F3); [unfold off; lia|].
+    intros y Hy. split; [rewrite Ea, flat_app, flat_cons; apply in_or_app; right; apply in_or_app; right; exact Hy|].
+    pose proof (forest_within _ _ _ _ _ F3) as W. rewrite Forall_forall in W. specialize (W y Hy). unfold within in W.
+    apply not_in_by_off. intros A [<-|[]]. lia.
+Qed.
+
+(* shape A: moov.udta exists (without meta.ilst); the new meta becomes the first child of udta *)
+Theorem new_wellformed_udta moov udta T1 T2 M1 M2 K rest f2 f' :
+  mp4_insert_path atoms = Some [moov; udta] -> atoms = T1 ++ moov :: T2 -> ma_name moov = N_moov ->
+  ma_kids moov = Some (M1 ++ udta :: M2) -> ma_name udta = N_udta -> ma_kids udta = Some K ->
+  rev [moov; udta] = udta :: rest ->
+  (forall T, In T (all_tabs atoms) -> ma_off T <> ma_off udta + ma_hdr udta) ->
+  let off := ma_off udta + ma_hdr udta in
+  let data := mp4_new_insert cb f udta ilst_data in
+  mp4_update_parents (zlen data - 0) (splice f off 0 data) (map ma_off [moov; udta]) = Ok f2 ->
+  mp4_update_offsets atoms (zlen data - 0) off f2 = Ok f' ->
+  exists atoms', mp4_forest_ok f' true atoms' 0 (zlen f') = true.
+Proof.
+  intros Hp Ea Nm Km Nu Ku Hrev Hfirst off data R1 R2.
+  set (cs := zlen f - off).
+  assert (Hdata : data = mp4_new_meta cb cs ilst_data).
+  { unfold data, mp4_new_insert. fold off cs. rewrite Nu. reflexivity. }
+  pose proof (nw_zlen f atoms Hwf Htab [moov; udta] udta rest Hp Hrev Hfirst cb ilst_data f2 f' R1 R2) as ZR.
+  pose proof (nw_region f atoms Hwf Htab [moov; udta] udta rest Hp Hrev Hfirst cb ilst_data f2 f' R1 R2) as AGD.
+  fold off data in ZR, AGD. set (delta := zlen data) in *.
+  pose proof (zlen_nonneg data) as DN. assert (Hdel : delta = zlen data) by reflexivity.
+  rewrite Ea in Hwf. pose proof (forest_ok_split _ _ _ _ _ _ _ Hwf) as (F1 & Hm & F3). rewrite <- Ea in Hwf.
+  destruct (atom_ok_kids _ _ _ _ Hm Km) as (Hcm & Hkm). pose proof (forest_ok_split _ _ _ _ _ _ _ Hkm) as (G1 & Hu & G3).
+  destruct (atom_ok_kids _ _ _ _ Hu Ku) as (_ & Hk). pose proof (atom_ok_len _ _ _ Hm) as Lm. pose proof (atom_ok_len _ _ _ Hu) as Lu.
+  assert (Su : mp4_skip (ma_name udta) = 0) by (rewrite Nu; reflexivity). rewrite Su, Z.add_0_r in Hk. fold off in Hk.
+  pose proof (skip_nonneg (ma_name moov)) as Ssm. pose proof (forest_ok_le _ _ _ _ _ G1) as LeG1.
+  pose proof (forest_ok_le _ _ _ _ _ G3) as LeG3. pose proof (forest_ok_le _ _ _ _ _ Hk) as LeK.
+  assert (Imoov : In moov (mp4_flat atoms)) by (rewrite Ea; apply in_flat_self; apply in_or_app; right; left; reflexivity).
+  assert (InKm : forall y, In y (mp4_flat (M1 ++ udta :: M2)) -> In y (mp4_flat atoms)).
+  { intros y Hy. rewrite Ea. eapply in_flat_kids; [|exact Km|exact Hy]. apply in_or_app. right; left; reflexivity. }
+  assert (Iudta : In udta (mp4_flat atoms)) by (apply InKm; apply in_flat_self; apply in_or_app; right; left; reflexivity).
+  (* the new meta at off *)
+  assert (HN : mp4_forest_ok f' false [nm_meta off cb cs ilst_data it] off (off + delta) = true).
+  { unfold delta. rewrite Hdata. apply nm_at. rewrite <- Hdata. exact AGD. }
+  assert (InK : forall y, In y (mp4_flat K) -> In y (mp4_flat atoms) /\ ~ In y [moov; udta]).
+  { intros y Hy. split.
+    - apply InKm. eapply in_flat_kids; [|exact Ku|exact Hy]. apply in_or_app. right; left; reflexivity.
+    - pose proof (forest_within _ _ _ _ _ Hk) as W. rewrite Forall_forall in W. specialize (W y Hy). unfold within in W.
+      apply not_in_by_off. intros A0 [<-|[<-|[]]]; unfold off in *; lia. }
+  pose proof (nw_insert_container f atoms Hwf Htab [moov; udta] udta rest Hp Hrev Hfirst cb ilst_data f2 f' R1 R2
+                false udta K [nm_meta off cb cs ilst_data it] (or_intror (or_introl eq_refl)) Hu Ku
+                ltac:(rewrite Su; unfold off; lia) InK HN ltac:(discriminate)) as HUD.
+  fold data delta in HUD.
+  set (udta' := MAtom (ma_name udta) (ma_off udta) (ma_len udta + delta) (ma_hdr udta)
+                  (Some ([nm_meta off cb cs ilst_data it] ++ shift_forest delta K))) in *.
+  (* moov *)
+  assert (Htopc : true = true -> ma_off moov + ma_len moov = zlen f \/ be_decode (mp4_rd f (ma_off moov) 4) <> 0).
+  { intros _. destruct (Z.eq_dec (be_decode (mp4_rd f (ma_off moov) 4)) 0) as [Z0|N0]; [left|right; exact N0].
+    pose proof (atom_ok_header _ _ _ Hm) as Hh. pose proof (header_ok_facts _ _ _ _ _ _ Hh) as (X1 & X2 & X3 & X4 & X5 & X6 & X7).
+    unfold mp4_header_ok in Hh. rewrite ztake_rd in Hh by lia. rewrite Z0 in Hh.
+    apply andb_true_iff in Hh. destruct Hh as [_ HE]. lia. }
+  assert (HMV : mp4_atom_ok f' true (MAtom (ma_name moov) (ma_off moov) (ma_len moov + delta) (ma_hdr moov)
+                                       (Some (M1 ++ udta' :: shift_forest delta M2))) = true).
+  { rewrite atom_ok_node.
+    pose proof (nw_anc_header f atoms Hwf Htab [moov; udta] udta rest Hp Hrev Hfirst cb ilst_data f2 f' R1 R2 true moov
+               (or_introl eq_refl) Hm ltac:(unfold off; lia) Htopc) as HH. fold data delta in HH. rewrite HH. rewrite Hcm. cbn [andb].
+    apply forest_ok_app_intro with (m := ma_off udta).
+    - apply (forest_ok_same f f' false M1 _ _ G1); [|lia|discriminate].
+      apply (nw_before f atoms Hwf Htab [moov; udta] udta rest Hp Hrev Hfirst cb ilst_data f2 f' R1 R2 _ _ _ _ G1); [unfold off; lia|].
+      intros y Hy. split; [apply InKm; rewrite flat_app; apply in_or_app; left; exact Hy|].
+      pose proof (forest_within _ _ _ _ _ G1) as W. rewrite Forall_forall in W. specialize (W y Hy). unfold within in W.
+      destruct (flat_member_ok f atoms Hwf y ltac:(apply InKm; rewrite flat_app; apply in_or_app; left; exact Hy)) as (tp & Hyok).
+      pose proof (atom_ok_len _ _ _ Hyok). apply not_in_by_off. intros A0 [<-|[<-|[]]]; lia.
+    - apply forest_ok_intro; [reflexivity|exact HUD|]. unfold udta'. cbn [ma_off ma_len].
+      pose proof (forest_ok_transfer f f' delta false M2 _ _ G3) as X.
+      replace (ma_off udta + ma_len udta + delta) with (ma_off udta + (ma_len udta + delta)) in X by lia.
+      replace (ma_off moov + ma_len moov + delta) with (ma_off moov + (ma_len moov + delta)) in X by lia.
+      apply X; [|lia|discriminate].
+      apply (nw_after f atoms Hwf Htab [moov; udta] udta rest Hp Hrev Hfirst cb ilst_data f2 f' R1 R2 _ _ _ _ G3); [unfold off; lia|].
+      intros y Hy. split; [apply InKm; rewrite flat_app, flat_cons; apply in_or_app; right; apply in_or_app; right; exact Hy|].
+      pose proof (forest_within _ _ _ _ _ G3) as W. rewrite Forall_forall in W. specialize (W y Hy). unfold within in W.
+      apply not_in_by_off. intros A0 [<-|[<-|[]]]; lia. }
+  exists (T1 ++ MAtom (ma_name moov) (ma_off moov) (ma_len moov + delta) (ma_hdr moov) (Some (M1 ++ udta' :: shift_forest delta M2))
+            :: shift_forest delta T2).
+  apply forest_ok_app_intro with (m := ma_off moov).
+  - apply (forest_ok_same f f' true T1 _ _ F1); [|lia|intros _; right; lia].
+    apply (nw_before f atoms Hwf Htab [moov; udta] udta rest Hp Hrev Hfirst cb ilst_data f2 f' R1 R2 _ _ _ _ F1); [unfold off; lia|].
+    intros y Hy. split; [rewrite Ea, flat_app; apply in_or_app; left; exact Hy|].
+    pose proof (forest_within _ _ _ _ _ F1) as W. rewrite Forall_forall in W. specialize (W y Hy). unfold within in W.
+    destruct (flat_member_ok f atoms Hwf y ltac:(rewrite Ea, flat_app; apply in_or_app; left; exact Hy)) as (tp & Hyok).
+    pose proof (atom_ok_len _ _ _ Hyok). apply not_in_by_off. intros A0 [<-|[<-|[]]]; lia.
+  - apply forest_ok_intro; [reflexivity|exact HMV|]. cbn [ma_off ma_len].
+    pose proof (forest_ok_transfer f f' delta true T2 _ _ F3) as X.
+    replace (ma_off moov + ma_len moov + delta) with (ma_off moov + (ma_len moov + delta)) in X by lia.
+    rewrite ZR. apply X; [|lia|intros _; left; lia].
+    apply (nw_after f atoms Hwf Htab [moov; udta] udta rest Hp Hrev Hfirst cb ilst_data f2 f' R1 R2 _ _ _ _ F3); [unfold off; lia|].
+    intros y Hy. split; [rewrite Ea, flat_app, flat_cons; apply in_or_app; right; apply in_or_app; right; exact Hy|].
+    pose proof (forest_within _ _ _ _ _ F3) as W. rewrite Forall_forall in W. specialize (W y Hy). unfold within in W.
+    apply not_in_by_off. intros A0 [<-|[<-|[]]]; lia.
+Qed.
+End NewFinal.
